@@ -359,6 +359,17 @@ def check_state_ids(rep, name, trace, model, rerun):
         rep.fail("broken-tie", f"L3 case {name}: no state components recorded for states {missing[:5]} ({[comps.get(u) for u in missing[:2]]})", case=rerun)
         return None
     rep.coverage["state_ids_compared"] = rep.coverage.get("state_ids_compared", 0) + len(uids)
+    # spec vs implementation: every condition that mentions a symbol held in the state is a constraint of the state
+    for u in uids:
+        c = comps[u]
+        lost = [i for i in c.get("direct", []) if c["sliced"] is None or i not in c["sliced"]]
+        if lost:
+            rep.fail("failing-input", f"L3 case {name}: state {u}: the path condition(s) {[c.get('cond_text', {}).get(str(i), i) for i in lost]} mention a symbol held in the state ({c.get('state_symbols')}) "
+                     f"but are not in the slice {c['sliced']}: they are neither part of the state id nor carried to the next transaction",
+                     case=dict(rerun, states={str(u): c}), sig={"defect": "state-constraint-not-in-slice"})
+            break
+    if any(comps[u].get("direct") for u in uids):
+        rep.count("l3_state_ids", "cases with constraints on state symbols")
     # spec vs implementation: equal id => identical
     by_tok = {}
     for u in uids:
@@ -549,6 +560,7 @@ QUICK_CORPUS = {
     "value-needed", "time-after-other-call", "F9-roll", "setup-merge-time", "F12-probe", "value-balance",
     "branch-cond-arg-small", "branch-cond-arg-big", "branch-cond-arg-d3", "branch-cond-arg-late-store", "branch-cond-arg-eq",
     "branch-cond-caller-eq", "branch-cond-caller-ne", "branch-cond-value", "branch-cond-unrelated",
+    "branch-cond-related-lo", "branch-cond-related-hi",
 }
 
 
